@@ -94,4 +94,19 @@ Definition matcher_filters (addrs : list bytes) (tops : list (list bytes)) : lis
   let clauses := (match addrs with [] => [] | _ => [addrs] end) ++ tops in
   map (map calc_bloom_indexes) (filter (fun c => match c with [] => false | _ => true end) clauses).
 
+(* bloombits/matcher.go NewMatcher on raw clauses (what filters.New hands over is the special case
+   without nil): an empty clause is skipped; a nil alternative makes bloomBits nil and the whole
+   clause is skipped (wildcard); otherwise every alternative is mapped by calcBloomIndexes *)
+Fixpoint clause_bits (f : list (option bytes)) : option (list (N * N * N)) :=
+  match f with
+  | [] => Some []
+  | None :: _ => None
+  | Some x :: t => match clause_bits t with Some l => Some (calc_bloom_indexes x :: l) | None => None end
+  end.
+Definition new_matcher_filters (filters : list (list (option bytes))) : list (list (N * N * N)) :=
+  flat_map (fun f => match f with
+                     | [] => []
+                     | _ => match clause_bits f with Some l => [l] | None => [] end
+                     end) filters.
+
 End WithHash.
